@@ -153,7 +153,12 @@ impl<'a, F: Float> BallTreeInner<'a, F> {
         // The distance to a sphere is the distance to its edge, so the distance between a point
         // and a sphere will always be less than the distance between the point and anything inside
         // the sphere
-        let border_dist = dist_fn.distance(p, center.reborrow()) - *radius;
+        let center_dist = dist_fn.distance(p, center.reborrow());
+        // Both terms are rounded results. Lower their difference by a few units in the last place
+        // of the terms, so that it remains a lower bound and never prunes a sphere that holds a
+        // point the point-wise test would accept
+        let slack = (center_dist + *radius) * F::epsilon() * F::cast(p.len() + 4);
+        let border_dist = center_dist - *radius - slack;
         dist_fn.dist_to_rdist(border_dist.max(F::zero()))
     }
 }
